@@ -10,7 +10,7 @@ static const unsigned ALPHA = 8;                 // letters 'a'.. map to glyph i
 static const unsigned NGLYPH_USED = 20;
 
 struct RuleDef { std::vector<unsigned> match; Bytes action; Bytes constraint; };
-struct PassDef { std::vector<RuleDef> rules; unsigned maxloop; unsigned prectx = 0; Bytes pcons; };   // prectx: pre-context length shared by all rules of the pass; pcons: pass constraint
+struct PassDef { std::vector<RuleDef> rules; unsigned maxloop; unsigned prectx = 0; Bytes pcons; bool revdir = false; };   // prectx: pre-context length shared by all rules of the pass; pcons: pass constraint
 
 static void w8(Bytes &b, unsigned v) { b.push_back(u8(v)); }
 static void w16(Bytes &b, unsigned v) { put16(b, v); }
@@ -148,7 +148,7 @@ static Bytes build_pass(const PassDef &pd, size_t base, bool zerocol) {
     for (size_t i = 0; i < nodes.size(); ++i) { if (cls[i] <= 1) ++numTrans; if (cls[i] >= 1) ++numSuccess; }
     const unsigned numCols = ALPHA, numRules = unsigned(pd.rules.size());
     Bytes p;
-    w8(p, 0); w8(p, pd.maxloop); w8(p, 3); w8(p, 0);
+    w8(p, pd.revdir ? 0x20 : 0); w8(p, pd.maxloop); w8(p, 3); w8(p, 0);     // flags (bit 5: the pass runs against the font's direction)
     w16(p, numRules); w16(p, 0);
     const size_t o_pc = p.size(); w32(p, 0); const size_t o_rc = p.size(); w32(p, 0); const size_t o_ac = p.size(); w32(p, 0); w32(p, 0);
     w16(p, u32(numStates)); w16(p, u32(numTrans)); w16(p, u32(numSuccess)); w16(p, numCols);
@@ -183,22 +183,22 @@ static Bytes build_pass(const PassDef &pd, size_t base, bool zerocol) {
 }
 
 // program encoding in Fault.a (OVR_SILFPROG): [np, nsub, numUser, ijust_is_np, rtl, then per pass: maxloop, nrules, per rule: len, match[len], conslen, cons[conslen], alen, action[alen]]
-struct SynthHdr { bool badlb = false; bool zerocol = false; unsigned flags = 0; std::vector<unsigned> just; unsigned nlb = 0; };   // nlb: the first nlb passes are line-break passes (iSubst = nlb)   // Silf flags byte (bit 0: line-end contextuals), justification levels (4 attribute numbers each)
+struct SynthHdr { unsigned skipattr = 0;   /* 0 = none, a+1 = glyph attribute a holds the per-glyph pass-skip bits */ bool badlb = false; bool zerocol = false; unsigned bidi = 0;   /* bidi: 0 = no bidi pass, k+1 = the bidi step sits before pass jPass+k (clamped) */ unsigned flags = 0; std::vector<unsigned> just; unsigned nlb = 0; };   // nlb: the first nlb passes are line-break passes (iSubst = nlb)   // Silf flags byte (bit 0: line-end contextuals), justification levels (4 attribute numbers each)
 static void encode_prog(const std::vector<PassDef> &passes, unsigned nsub, unsigned numUser, bool ijust_np, bool rtl, const SynthHdr &h, std::vector<i64> &a) {
-    a = {i64(passes.size()), i64(nsub), i64(numUser), ijust_np ? 1 : 0, rtl ? 1 : 0, i64(h.flags | (h.badlb ? 2u : 0u) | (h.zerocol ? 4u : 0u)), i64(h.just.size() / 4)};
+    a = {i64(passes.size()), i64(nsub), i64(numUser), ijust_np ? 1 : 0, i64((rtl ? 1 : 0) | (h.bidi << 4)), i64(h.flags | (h.badlb ? 2u : 0u) | (h.zerocol ? 4u : 0u) | (h.skipattr << 4)), i64(h.just.size() / 4)};
     for (unsigned v : h.just) a.push_back(v);
     a.push_back(h.nlb);
-    for (auto &pd : passes) { a.push_back(i64(pd.maxloop | (pd.prectx << 8) | (pd.pcons.empty() ? 0u : 0x400u))); a.push_back(i64(pd.rules.size()));
+    for (auto &pd : passes) { a.push_back(i64(pd.maxloop | (pd.prectx << 8) | (pd.pcons.empty() ? 0u : 0x400u) | (pd.revdir ? 0x800u : 0u))); a.push_back(i64(pd.rules.size()));
         if (!pd.pcons.empty()) { a.push_back(i64(pd.pcons.size())); for (u8 c : pd.pcons) a.push_back(c); }
         for (auto &rd : pd.rules) { a.push_back(i64(rd.match.size())); for (unsigned g : rd.match) a.push_back(g); a.push_back(i64(rd.constraint.size())); for (u8 c : rd.constraint) a.push_back(c); a.push_back(i64(rd.action.size())); for (u8 c : rd.action) a.push_back(c); } }
 }
 static bool decode_prog(const std::vector<i64> &a, std::vector<PassDef> &passes, unsigned &nsub, unsigned &numUser, bool &ijust_np, bool &rtl, SynthHdr &h) {
     size_t i = 0; auto get = [&](i64 &v) { if (i >= a.size()) return false; v = a[i++]; return true; };
     i64 np, v; if (!get(np) || np < 1 || np > 16) return false; if (!get(v)) return false; nsub = unsigned(v < 0 ? 0 : v > np ? np : v); if (!get(v)) return false; numUser = unsigned(v & 7);
-    if (!get(v)) return false; ijust_np = v != 0; if (!get(v)) return false; rtl = v != 0;
-    if (!get(v)) return false; h.flags = unsigned(v & 1); h.badlb = (v & 2) != 0; h.zerocol = (v & 4) != 0;   // bit 1: the line-end glyph id names no glyph of the font i64 nj; if (!get(nj) || nj < 0 || nj > 3) return false; for (i64 q = 0; q < 4 * nj; ++q) { if (!get(v)) return false; h.just.push_back(unsigned(v & 0xFF)); }
+    if (!get(v)) return false; ijust_np = v != 0; if (!get(v)) return false; rtl = (v & 1) != 0; const unsigned bidi_in = unsigned((v >> 4) & 0xF);
+    if (!get(v)) return false; h.flags = unsigned(v & 1); h.badlb = (v & 2) != 0; h.zerocol = (v & 4) != 0; h.skipattr = unsigned((v >> 4) & 0xF); h.bidi = bidi_in;   // bit 1: the line-end glyph id names no glyph of the font i64 nj; if (!get(nj) || nj < 0 || nj > 3) return false; for (i64 q = 0; q < 4 * nj; ++q) { if (!get(v)) return false; h.just.push_back(unsigned(v & 0xFF)); }
     if (!get(v)) return false; h.nlb = unsigned(v < 0 ? 0 : v); if (h.nlb > nsub) h.nlb = nsub;
-    for (i64 p = 0; p < np; ++p) { PassDef pd; i64 nr; if (!get(v)) return false; pd.maxloop = unsigned(v & 0xFF); pd.prectx = unsigned((v >> 8) & 3); const bool haspc = (v & 0x400) != 0; if (!get(nr) || nr < 1 || nr > 32) return false;
+    for (i64 p = 0; p < np; ++p) { PassDef pd; i64 nr; if (!get(v)) return false; pd.maxloop = unsigned(v & 0xFF); pd.prectx = unsigned((v >> 8) & 3); const bool haspc = (v & 0x400) != 0; pd.revdir = (v & 0x800) != 0; if (!get(nr) || nr < 1 || nr > 32) return false;
         if (haspc) { i64 pl; if (!get(pl) || pl < 0 || pl > 250) return false; for (i64 q = 0; q < pl; ++q) { if (!get(v)) return false; pd.pcons.push_back(u8(v)); } }
         for (i64 k = 0; k < nr; ++k) { RuleDef rd; i64 len; if (!get(len) || len < 1 || len > 8) return false; if (len <= i64(pd.prectx)) pd.prectx = unsigned(len - 1); for (i64 q = 0; q < len; ++q) { if (!get(v)) return false; rd.match.push_back(1 + unsigned(u64(v - 1) % ALPHA)); }
             i64 cl; if (!get(cl) || cl < 0 || cl > 700) return false; for (i64 q = 0; q < cl; ++q) { if (!get(v)) return false; rd.constraint.push_back(u8(v)); }
@@ -230,6 +230,7 @@ static void gen_prog(u64 seed, std::vector<i64> &out) {
             pd.rules.push_back(rd); passes.push_back(pd); continue;
         }
         unsigned nr = 1 + r.below(4);
+        pd.revdir = r.chance(1, 8);
         const unsigned pk = r.chance(1, 4) ? 1 + r.below(2) : 0;     // pre-context shared by the rules of this pass
         pd.prectx = pk;
         if (r.chance(1, 8)) { gen_expr(r, 2, 0, 0, numUser, pd.pcons); w8(pd.pcons, POP_RET); if (pd.pcons.size() > 240) pd.pcons = {PUSH_BYTE, 1, POP_RET}; }
@@ -257,7 +258,7 @@ static void gen_prog(u64 seed, std::vector<i64> &out) {
         }
         passes.push_back(pd);
     }
-    SynthHdr h; if (r.chance(1, 3)) { h.flags = 1; h.badlb = r.chance(1, 5); } h.zerocol = zerocol; if (r.chance(1, 4)) h.nlb = r.below(nsub + 1); if (r.chance(1, 3)) { unsigned nj = 1 + r.below(2); for (unsigned q = 0; q < 4 * nj; ++q) h.just.push_back(r.below(6)); }
+    SynthHdr h; if (r.chance(1, 3)) { h.flags = 1; h.badlb = r.chance(1, 5); } h.zerocol = zerocol; if (r.chance(1, 5)) h.bidi = 1 + r.below(4); if (r.chance(1, 6)) h.skipattr = 1 + r.below(8); if (r.chance(1, 4)) h.nlb = r.below(nsub + 1); if (r.chance(1, 3)) { unsigned nj = 1 + r.below(2); for (unsigned q = 0; q < 4 * nj; ++q) h.just.push_back(r.below(6)); }
     encode_prog(passes, nsub, numUser, r.chance(1, 2), r.chance(1, 4), h, out);
 }
 
@@ -272,13 +273,13 @@ void silf_override(Store &st, const Fault &f) {
     if (getenv("SYN_DUMP")) for (unsigned i = 0; i < np; ++i) { fprintf(stderr, "pass %u (%s) maxloop %u prectx %u pcons %zu\n", i, i < nsub ? "subst" : "pos", passes[i].maxloop, passes[i].prectx, passes[i].pcons.size()); for (auto &rd : passes[i].rules) { fprintf(stderr, "  rule match"); for (unsigned g : rd.match) fprintf(stderr, " g%u", g); fprintf(stderr, " action:"); for (u8 b : rd.action) fprintf(stderr, " %d", int(b)); if (!rd.constraint.empty()) { fprintf(stderr, " constraint:"); for (u8 b : rd.constraint) fprintf(stderr, " %d", int(b)); } fprintf(stderr, "\n"); } }
     Bytes s;
     w16(s, nglyphs - 1); w16(s, 0); w16(s, 0);
-    w8(s, np); w8(s, hdr.nlb); w8(s, nsub); w8(s, ijust_np ? np : nsub); w8(s, 0xFF); w8(s, hdr.flags); w8(s, 0); w8(s, 0);
+    w8(s, np); w8(s, hdr.nlb); w8(s, nsub); w8(s, ijust_np ? np : nsub); { const unsigned jp = ijust_np ? np : nsub; w8(s, hdr.bidi ? std::min(np, jp + hdr.bidi - 1) : 0xFF); } w8(s, hdr.flags); w8(s, 0); w8(s, 0);
     // the four glyph-attribute indices (pseudo, break weight, directionality, mirroring) are taken from the font's own Silf
     // table, so that pseudo-glyph and mirror attributes keep naming real glyphs (C03 gid clause stays applicable)
     unsigned ga[4] = {0, 0, 0, 0};
     { auto sf = st.tables.find(mktag("Silf")); if (sf != st.tables.end()) { const Bytes &o = sf->second; if (o.size() >= 12) { u32 ver = be32(&o[0]); size_t pp = 4 + (ver >= 0x00030000 ? 4 : 0); if (pp + 8 <= o.size()) { size_t q = be32(&o[pp + 4]) + (ver >= 0x00030000 ? 8 : 0); if (q + 18 <= o.size()) for (int k = 0; k < 4; ++k) ga[k] = o[q + 14 + size_t(k)]; } } } }
     for (int k = 0; k < 4; ++k) w8(s, ga[k]);
-    w8(s, 0);                                   // attrSkipPasses
+    { unsigned na = 1; auto gl = st.tables.find(mktag("Gloc")); if (gl != st.tables.end() && gl->second.size() >= 8) na = be16(&gl->second[6]); w8(s, hdr.skipattr && na ? (hdr.skipattr - 1) % na : 0); }   // attrSkipPasses
     {   // justification levels: attribute numbers must exist in the font
         unsigned nattrs = 1; auto gl = st.tables.find(mktag("Gloc")); if (gl != st.tables.end() && gl->second.size() >= 8) nattrs = be16(&gl->second[6]); if (!nattrs) nattrs = 1;
         w8(s, unsigned(hdr.just.size() / 4));
